@@ -45,7 +45,7 @@ def app_cls(ctx):
     return ctx.repo.cls(APP, "ControllerApplication")
 
 
-def explore_write(ctx, version=8, hashed="aa", stack_specific=None):
+def explore_write(ctx, version=8, hashed="aa", stack_specific=None, children=None, nwk_addresses=None):
     repo = ctx.repo
     f = repo.func(f"{APP}:ControllerApplication.write_network_info")
     models = [wrap("t.KeyData"), wrap("t.EUI64"), wrap("t.Channels"), ("util.zha_security", lambda px, t, a, k, fr: Sym("isc")),
@@ -57,8 +57,10 @@ def explore_write(ctx, version=8, hashed="aa", stack_specific=None):
 
         ni = Obj(TypeRef("NetworkInfo"), {"stack_specific": copy.deepcopy(stack_specific) if stack_specific is not None else ({"ezsp": {"hashed_tclk": hashed}} if hashed else {}),
                                           "network_key": Obj(TypeRef("Key"), {}, tag="ni.network_key"),
-                                          "tc_link_key": Obj(TypeRef("Key"), {}, tag="ni.tc_link_key"), "children": [Sym("child1")],
-                                          "nwk_addresses": {Sym("child1"): Sym("nwk1")}, "key_table": Sym("ni.key_table")}, tag="ni")
+                                          "tc_link_key": Obj(TypeRef("Key"), {}, tag="ni.tc_link_key"),
+                                          "children": list(children) if children is not None else [Sym("child1")],
+                                          "nwk_addresses": dict(nwk_addresses) if nwk_addresses is not None else {Sym("child1"): Sym("nwk1")},
+                                          "key_table": Sym("ni.key_table")}, tag="ni")
         ez = Obj(TypeRef("EZSP"), {"ezsp_version": version}, tag="self._ezsp")
         return self_obj(app_cls(ctx), {"_ezsp": ez}), {"network_info": ni, "node_info": Obj(TypeRef("NodeInfo"), {}, tag="node")}
 
@@ -349,6 +351,20 @@ def r14_5(ctx):
                 pass
             wc = [e for e in p.events if e.kind == "await" and e.what.endswith("write_child_data")]
             ctx.require(wc and wc[0].args[:1] == ({Sym("child1"): Sym("nwk1")},), f"children:v{version}", f"children written as {wc[0].args if wc else None!r}", func=f)
+    # exactly the children whose network address is known are written: no child, a child without an address, an address of a non-child
+    for label, ch, na, want in (("no-children", [], {"ee:02": 0x2222}, {}),
+                                ("child-without-address", ["ee:01", "ee:03"], {"ee:01": 0x1111, "ee:02": 0x2222}, {"ee:01": 0x1111}),
+                                ("two-children", ["ee:01", "ee:02"], {"ee:02": 0x2222, "ee:01": 0x1111}, {"ee:01": 0x1111, "ee:02": 0x2222})):
+        f, paths = explore_write(ctx, 8, children=ch, nwk_addresses=na)
+        done = [p for p in paths if p.terminal == "return"]
+        ctx.anchor(done, f"write_network_info completes ({label})")
+        for p in done:
+            ctx.paths += 1
+            wc = [e for e in p.events if e.kind == "await" and e.what.endswith("write_child_data")]
+            got = wc[0].args[0] if wc and wc[0].args else (wc[0].kwargs.get("children") if wc else None)
+            ctx.require(isinstance(got, dict) and got == want, f"children-selected:{label}",
+                        f"backup with children {ch} and network addresses {na}: write_child_data receives {got!r}; exactly the children with a known "
+                        f"network address are restored ({want})", func=f, trace=p.trace(12))
 
 
 @rule("R14.8", ["C14"], "T-FLOW", floor=4)
